@@ -93,7 +93,7 @@ TC(its, i, pos, lbls, out) ==
 \* value of a label expression on the CURRENT table (li's size decision)
 CurVal(it, pos, lbls) ==
   CASE it.f = "bare" -> lbls[it.t] [] it.f = "pos" -> it.n + lbls[it.t] [] it.f = "off" -> lbls[it.t] - pos
-    [] it.f = "offk" -> it.n - pos [] OTHER -> 0
+    [] it.f = "offk" -> it.n - pos [] it.f = "neg" -> it.n - lbls[it.t] [] OTHER -> 0
 Fits12(v) == v >= -2048 /\ v <= 2047
 \* signed value of a 32-bit pattern given as limbs, when it is small
 LimbSmall(hi, lo) == (hi = 0 /\ lo <= 2047) \/ (hi = 65535 /\ lo >= 63488)
@@ -159,12 +159,13 @@ BaseVal(it, pos, lbls) ==
   IF it.f \in {"bare", "lo:bare", "hi:bare", "s32:bare"} THEN lbls[it.t]
   ELSE IF it.f \in {"pos", "lo:pos", "hi:pos", "hipos", "lopos", "s32:pos"} THEN it.n + lbls[it.t]
   ELSE IF it.f \in {"offk", "lo:offk", "hi:offk", "s32:offk"} THEN it.n - pos
+  ELSE IF it.f \in {"neg", "lo:neg", "hi:neg", "s32:neg"} THEN it.n - lbls[it.t]
   ELSE lbls[it.t] - pos
 FinalVal(it, pos, lbls) ==
   LET base == BaseVal(it, pos, lbls)
       lim == Limbs(base)
-  IN IF it.f \in {"lo:bare", "lo:pos", "lo:off", "lo:offk", "lopos"} THEN Lo(lim[1], lim[2])
-     ELSE IF it.f \in {"hi:bare", "hi:pos", "hi:off", "hi:offk", "hipos"} THEN Hi(lim[1], lim[2])
+  IN IF it.f \in {"lo:bare", "lo:pos", "lo:off", "lo:offk", "lo:neg", "lopos"} THEN Lo(lim[1], lim[2])
+     ELSE IF it.f \in {"hi:bare", "hi:pos", "hi:off", "hi:offk", "hi:neg", "hipos"} THEN Hi(lim[1], lim[2])
      ELSE base
 \* where the second half of a pair evaluates its immediate: at the first half (4 bytes back; the first halves - auipc, and
 \* the lui of a label- or position-dependent li - are never compressed), or, with the deviation, at itself
